@@ -34,9 +34,45 @@ class C11(scen.WorldProp):
                   "origins 1e3..1.8e9, both rhythm wrappers; oracle: closed form on every strike (abs tol 2e-6 s). "
                   "non-trivial = at least 3 rows rung")
 
+    def after_accompanied(self, rng, tier):
+        """An unaccompanied touch that follows, in the same session, a touch in which a human (late by
+        `lags`) held Wheatley up; the human's bells are handed back before the second Look To."""
+        N = rng.choice([4, 6, 8, 12])
+        ps = rng.choice([90, 120, 178, 200])
+        g = rng.choice([0.0, 1.0, 1.0, 2.0])
+        I = scen.interval(ps, N)
+        row_t = I * (N + 1)
+        humans = sorted(rng.sample(range(2, N + 1), rng.randint(1, 2)))
+        tA = 1000.3 + rng.random()
+        stand = tA + 3 + rng.uniform(0.5, 2.5) * row_t
+        t0 = stand + 3 * row_t + 12 * len(humans) * 0.8 + 2 + rng.random()
+        events = [call(tA, LOOK_TO), call(stand, scen.STAND)]
+        events += [[t0 - 0.5, "msg", {"m": "assign", "bell": b, "user": 0}] for b in humans]
+        events += [[t0 - 0.3, "msg", {"m": "global_state", "state": [True] * N}], call(t0, LOOK_TO)]
+        rows = rng.randint(3, 12)
+        end = t0 + 3 + I * scen.blow_index(N, g, rows, 0) + 0.5 * I
+        sc = {"start": 1000.0, "end": end, "tower_size": N, "events": events, "on_join": scen.humans_on_join(humans),
+              "bot": scen.bot_cfg({"type": "plainhunt", "stage": N, "start_row": None}, up_down_in=rng.random() < 0.5),
+              "rhythm": scen.rhythm_cfg("wait", inertia=rng.choice([0.0, 0.5, 1.0]), peal_speed=ps, gap=g)}
+        return {"k": "world", "scenario": sc, "t0": t0, "speed_text": None, "humans_before": humans,
+                "lags": [rng.choice([0.05, 0.2, 0.4, 0.8]) for _ in range(5)]}
+
+    def agents(self, req):
+        if "humans_before" not in req:
+            return None
+        lags = req["lags"]
+        return lambda s: [scen.Follower(s, req["humans_before"], lambda r, p: lags[(r + p) % len(lags)],
+                                        stop=req["t0"] - 1)]
+
+    def tag(self, req, reply):
+        return ("after-accompanied:" if "humans_before" in req else "") + super().tag(req, reply)
+
     def cases(self, rng, tier):
         n = 60 if tier == "quick" else 500
         for i in range(n):
+            if i % 5 == 4:
+                yield self.after_accompanied(rng, tier)
+                continue
             N = rng.randint(4, 16)
             m, s = speed_strings(rng)
             if rng.random() < 0.08:
@@ -56,7 +92,9 @@ class C11(scen.WorldProp):
             yield {"k": "world", "scenario": sc, "t0": t0, "speed_text": s}
 
     def nontrivial(self, req, reply):
-        return len(scen.rings(reply)) >= 3 * req["scenario"]["tower_size"]
+        if "humans_before" in req and scen.b2f(reply.get("delay", 0)) <= 0.01:
+            return False
+        return len([x for x in scen.rings(reply) if x[0] >= req["t0"]]) >= 3 * req["scenario"]["tower_size"]
 
     def matches_finding(self, finding, req, msg):
         sc = req["scenario"]
@@ -72,7 +110,7 @@ class C11(scen.WorldProp):
         g = scen.b2f(sc["rhythm"]["gap"])
         I = scen.interval(ps, N)
         T = req["t0"]
-        rings = scen.rings(reply)
+        rings = [x for x in scen.rings(reply) if x[0] >= T]       # (the touch after the last Look To)
         if len(rings) < N:
             return "Wheatley did not ring a whole row"
         for k, (t, b, h) in enumerate(rings):
